@@ -236,7 +236,9 @@ impl Polynomial<Cmplx> {
             roots[2] = roots[0];
         } else {
             let sqrt = (- 27. * a * a * dis).sqrt();
-            let base = if d1 < Cmplx::zero() { d1 - sqrt } else { d1 + sqrt } / 2.;
+            // take the sign that avoids cancellation, i.e. the candidate of larger modulus
+            let ( plus, minus ) = ( d1 + sqrt, d1 - sqrt );
+            let base = if plus.abs() >= minus.abs() { plus } else { minus } / 2.;
             let k = base.pow( &Cmplx::new( 1. / 3.0, 0.0 ) );
             roots[0] = -(b + k + d0 / k) / ( 3. * a );
             let u = Cmplx::new( -0.5, (3.0_f64).sqrt() / 2.0 );
